@@ -448,11 +448,16 @@ def run_check(pid: str, tier: str, seed: int, n_override=None, workers=None, bud
     steps = sum(a["steps"] for a in aggs)
     resampled = sum(a["resampled"] for a in aggs)
     samples = [s for a in aggs for s in a["samples"]][:3]
+    diverged_path = None
     if diverged:
-        p = os.path.join(OUT, f"{pid}-nondeterministic.json")
-        json.dump(diverged[0], open(p, "w"), indent=1)
-        print(f"HARNESS-ERROR nondeterministic: same scenario, two digests ({p})")
-        return 2
+        diverged_path = os.path.join(OUT, f"{pid}-nondeterministic.json")
+        json.dump(diverged[0], open(diverged_path, "w"), indent=1)
+        if not viol:
+            print(f"HARNESS-ERROR nondeterministic: same scenario, two digests ({diverged_path})")
+            return 2
+        # (violations were seen as well: they are minimised and confirmed in fresh interpreters below, and a confirmed one is reported --
+        #  a tree that breaks the property can also make a run depend on the random bytes of a TLS handshake, e.g. by writing a request
+        #  onto a half-established session; if none is confirmed this remains a harness error)
 
     # 3. vacuity: required probes must have fired
     missing = [p for p in getattr(mod, "REQUIRED_PROBES", {}).get(tier, []) if probes.get(p, 0) == 0 and faults.get(p, 0) == 0]
@@ -494,6 +499,12 @@ def run_check(pid: str, tier: str, seed: int, n_override=None, workers=None, bud
         else:
             unreproduced.append(f"violation {cls} did not reproduce in a fresh interpreter ({path})\n{p.stdout[-2000:]}\n{p.stderr[-2000:]}")
 
+    if diverged_path is not None:
+        if rc == 1:
+            print(f"note: one scenario gave two digests when run twice ({diverged_path}); the violations above were each confirmed in a fresh interpreter")
+        else:
+            print(f"HARNESS-ERROR nondeterministic: same scenario, two digests ({diverged_path})")
+            return 2
     if unreproduced:
         if rc == 1:
             # something else was confirmed; these stay notes (state kept between requests makes some of them order-dependent)
